@@ -10,6 +10,18 @@ BASELINE_OFF = ("cd /repo && env -u CNES_PANDORA_VERIF /venv/bin/python -m pytes
 
 # id -> (technique, level text, level note, design ref)
 CLAIMED = {
+    "C17": (
+        "Fault-sequence enumeration: well-formed dataset pairs / input sections x every single and pair of contract violations (exhaustive), plus random larger sets",
+        "Exploration with exhaustive sub-spaces: four base classes of well-formed dataset pairs (mono, multiband+mask, "
+        "grids+classif+segm+ROI coordinates, NaN pixels+right disparity) x all singles and pairs of 19 dataset "
+        "violations through check_datasets; four base input sections on real GeoTIFFs x all singles and pairs of 19 "
+        "input violations through check_input_section and check_conf (with a spy proving that run_prepare never "
+        "started); Hypothesis adds random seeds and violation sets of size 0-3. Oracle: accepted iff the (effective) "
+        "violation set is empty.",
+        "Trusted: the violation appliers in pbt/props/c17.py (each is one edit of a well-formed object); violations "
+        "masked by another one of the same set are recomputed before judging.",
+        "DESIGN.md §5 C17",
+    ),
     "C05": (
         "Exhaustive parameter table (every parameter x must-accept / must-reject / absent) plus Hypothesis-generated combined configurations vs. a documented-contract reference",
         "Exploration with an exhaustive sub-space: each of the 35 parameters of the built-in methods takes every listed "
